@@ -1,8 +1,15 @@
 """Stream `scriptx`: fully refined edit scripts of the REAL engine on trees the L2 model does not cover yet —
 XML / HTML elements, CSV tables, multisets with duplicate elements (library API), plist wrappers — with generic
 structural monitors for C01 (accounting by child index), C02 (zero cost iff equal) and C03 (cost = sum of parts,
-three views).  Monitor-only: there is no Lean model behind this stream (stated in the evidence)."""
+three views) and C10 (dictionary strategy on XML attributes; with list edits disabled the rows of a CSV table, the
+cells of its rows and the children of XML elements are paired by position).  CSV tables are written to a file with the
+csv module and loaded by the REAL loader (`graphtage.csv.build_tree` / the registered file type) under default, -l
+and -ll.  Monitor-only: there is no Lean model behind this stream (stated in the evidence)."""
 import json
+
+LIST_OPT_SETS = [{}, {"allow_list_edits": False}, {"allow_list_edits_when_same_length": False}]
+XML_OPT_SETS = [{}, {"allow_key_edits": False}, {"auto_match_keys": False}, {"allow_list_edits": False},
+                {"allow_list_edits_when_same_length": False}]
 
 NAME = "scriptx"
 
@@ -52,9 +59,14 @@ def mut_csv(r, t):
         y.pop(r.randrange(len(y)))
     elif k < 0.7:
         y.insert(r.randint(0, len(y)), [r.choice(CELLS) for _ in range(r.randint(1, 4))])
-    elif k < 0.85 and y:
+    elif k < 0.8 and y:
         i = r.randrange(len(y))
         y[i] = y[i] + [r.choice(CELLS)]
+    elif k < 0.9 and len(y) >= 2:
+        y = y[1:] + y[:1]                # same number of rows, every row shifted
+    elif y:
+        i = r.randrange(len(y))
+        y[i] = y[i][1:] + y[i][:1]      # same number of cells, every cell shifted
     return y
 
 
@@ -68,10 +80,13 @@ def gen(rng, tier):
     cases = []
     for _ in range(n):
         a = gen_xml(rng)
-        cases.append({"kind": "xml", "f": a, "t": mut_xml(rng, a) if rng.random() < 0.85 else gen_xml(rng), "opts": rng.choice([{}, {"allow_key_edits": False}, {"auto_match_keys": False}])})
-    for _ in range(n):
+        cases.append({"kind": "xml", "f": a, "t": mut_xml(rng, a) if rng.random() < 0.85 else gen_xml(rng), "opts": rng.choice(XML_OPT_SETS)})
+    for i in range(n):
         a = gen_csv(rng)
-        cases.append({"kind": "csv", "f": a, "t": mut_csv(rng, a) if rng.random() < 0.85 else gen_csv(rng), "opts": {}})
+        b = mut_csv(rng, a) if rng.random() < 0.85 else gen_csv(rng)
+        if rng.random() < 0.3:
+            b = mut_csv(rng, b)
+        cases.append({"kind": "csv", "f": a, "t": b, "opts": LIST_OPT_SETS[i % 3], "loader": ("module", "filetype")[(i // 3) % 2]})
     for _ in range(n // 2):
         a = gen_mset(rng)
         b = list(a)
@@ -99,6 +114,13 @@ def gen(rng, tier):
         {"kind": "xml", "f": {"tag": "a", "attrib": {}, "text": "x", "children": []}, "t": {"tag": "a", "attrib": {}, "text": None, "children": []}, "opts": {}},
         {"kind": "xml", "f": {"tag": "a", "attrib": {}, "text": " x ", "children": []}, "t": {"tag": "a", "attrib": {}, "text": "x", "children": []}, "opts": {}},
         {"kind": "csv", "f": [], "t": [[""]], "opts": {}}, {"kind": "csv", "f": [["a", "b"], ["c"]], "t": [["a"], ["c", "b"]], "opts": {}},
+    ] + [
+        {"kind": "csv", "f": f, "t": t, "opts": o, "loader": ld}
+        for f, t in (([["a", "b", "c"], ["1", "2", "3"]], [["b", "c", "a"], ["1", "2", "3"]]),
+                     ([["a", "b"], ["c", "d"], ["e", "f"]], [["c", "d"], ["e", "f"], ["a", "b"]]),
+                     ([["a", "b"], ["c", "d"], ["e", "f"]], [["c", "d"], ["e", "f"]]))
+        for o in LIST_OPT_SETS for ld in ("module", "filetype")
+    ] + [
         {"kind": "mset", "f": [1, 1, 2], "t": [3, 4, 5], "opts": {}}, {"kind": "mset", "f": [1, 1], "t": [1], "opts": {}}, {"kind": "mset", "f": [], "t": [], "opts": {}},
     ]
     return cases
@@ -146,14 +168,14 @@ def _build(case, which):
         from graphtage import xml as gx
         return gx.build_tree(_xml_to_et(v), o)
     if k == "csv":
-        from graphtage import csv as gc
-        rows = []
-        for row in v:
-            cells = [gj.build_tree(c, options=o) for c in row]
-            for c in cells:
-                c.quoted = False
-            rows.append(gc.CSVRow(cells))
-        return gc.CSVNode(rows)
+        # the REAL loader on a file written with the csv module
+        from harness.streams import script as S
+        import os
+        path = S._csv_file(v)
+        try:
+            return S._csv_tree(path, o, case.get("loader", "module"))
+        finally:
+            os.unlink(path)
     if k == "mset":
         return graphtage.MultiSetNode([gj.build_tree(c, options=o) for c in v])
     if k == "plist":
@@ -335,7 +357,7 @@ def monitor(case, obs):
     if obs.get("error"):
         key = "internal-error:" + str(obs.get("exc", obs["error"]))
         what = f"{case['kind']}: {obs.get('exc')}: {obs.get('msg', '')}"
-        return [{"prop": p, "key": key, "what": what} for p in ("C01", "C02", "C03", "C05")]
+        return [{"prop": p, "key": key, "what": what} for p in ("C01", "C02", "C03", "C05", "C10")]
     raw = []
     _walk(obs["script"], raw)
     root = obs["script"][3]
@@ -352,6 +374,25 @@ def monitor(case, obs):
                 raw.append(("C02", "differ-but-zero:" + case["kind"], f"different {case['kind']} documents but cost 0"))
             if de != obs["eq"] and not case["kind"] == "plist":
                 raw.append(("C02", "node-eq-vs-data-eq:" + case["kind"], f"tree equality {obs['eq']} but documents are {'equal' if de else 'different'}"))
+    # ---- C10: list edits disabled (always, or for equal lengths): rows of a CSV table, cells of a row and children of
+    # an XML element are paired strictly by position; only a surplus tail is removed or inserted
+    if case["kind"] in ("csv", "xml"):
+        ale = case.get("opts", {}).get("allow_list_edits", True)
+        alesl = case.get("opts", {}).get("allow_list_edits_when_same_length", True)
+
+        def pos(node, path="/"):
+            kind, subs, n, m = node[0], node[4], node[5], node[6]
+            if kind in ("EditDistance", "FixedLengthSequenceEdit") and ((not ale) or (n == m and not alesl)):
+                k = min(n, m)
+                want = [("pair", i, i) for i in range(k)] + [("Remove", i, None) for i in range(k, n)] \
+                    + [("Insert", None, i) for i in range(k, m)]
+                got = [(s[0] if s[0] in ("Remove", "Insert") else "pair", s[1], s[2]) for s in subs]
+                if got != want:
+                    raw.append(("C10", "list-edits-off-not-positional:" + case["kind"],
+                                f"list edits disabled ({'always' if not ale else 'for equal lengths'}) but the {kind} over {n} / {m} elements at {path} is not positional: {got}"))
+            for i, s in enumerate(subs):
+                pos(s, path + str(i) + "/")
+        pos(obs["script"])
     # ---- C10 on XML attributes: the dictionary strategy reaches every element's attribute mapping
     if case["kind"] == "xml":
         ake = case.get("opts", {}).get("allow_key_edits", True)
@@ -372,7 +413,9 @@ def monitor(case, obs):
 def classify(case, obs):
     if not isinstance(obs, dict) or obs.get("error"):
         return case["kind"] + ":error"
-    return case["kind"] + ":" + obs["script"][0]
+    o = case.get("opts", {})
+    tag = ("-l" if not o.get("allow_list_edits", True) else "") + ("-ll" if not o.get("allow_list_edits_when_same_length", True) else "")
+    return case["kind"] + (tag and "|" + tag) + ":" + obs["script"][0]
 
 
 def nontrivial(case, obs):
